@@ -28,3 +28,4 @@ def run(ctx, rep):
     optargs.rule_missing_is_undefined(ctx, rep, "C18-R9", lambda f: _in_family(f.qual), "the Number methods, Number, parseInt, parseFloat and Math", floor=6)
     optargs.rule_argument_not_overridden(ctx, rep, "C18-R10", lambda f: _in_family(f.qual), "the number parsers and formatters", floor=2)
     operators.rule_log_poles(ctx, rep, "C18-R11")
+    builtins.rule_signed_number_text(ctx, rep, "C18-R12")
